@@ -1,11 +1,392 @@
-(* C01 — physicality verdicts: property theorems only. *)
-From Coq Require Import Arith Bool List.
-From QV.Core Require Import OF Sums Mat Cplx Psd C01_HermPsd.
-From QV.Model Require Import QObj HermEmbed C01_Verdicts.
-From QV.Proofs Require Import C01_Verdicts.
+(* C01 — physicality verdicts: property theorems only (proofs are in Proofs/C01_Verdicts.v, C01_Main.v, C01_Exec.v, C01_Examples.v,
+   Core/C01_HermPsd.v).  Every theorem holds for every ordered field F (executed at Qc, meant at R), every dimension d, every
+   outcome count m and every basis B satisfying the stated hypotheses; irrational constants (sd = sqrt d) are parameters.
 
+   Model = Model/C01_Verdicts.v.  The verdicts are stated for rtol = 0 ("the absolute tolerance is the only slack"): this is quara
+   AFTER the repairs fixes/C01-state-is-trace-one-rtol.diff and fixes/C01-povm-is-identity-sum-rtol.diff, and it is the model the
+   harness compares the implementation with (the executed ops are proved equal to it: the C01_exec theorems).  The two [_refuted]
+   theorems are about the same definitions at rtol = np_rtol = 1e-5, i.e. State.is_trace_one / Povm.is_identity_sum AS CODED
+   BEFORE those repairs.
+
+   Meaning of the words (spec level, DESIGN 2.9): "H + t*I positive semidefinite" is  forall x, 0 <= Re(x^dagger H x) + t*|x|^2
+   ([hqf], [cnorm2]; equivalent to lambda_min(H) >= -t); "completely positive" is "Choi matrix positive semidefinite" (Choi's
+   theorem is not re-proved); the Choi matrix is QObj.choi_of_hs = sum_ab HS_ab B_a (x) conj(B_b), the Choi matrix of the map
+   for an orthonormal basis. *)
+From Coq Require Import ZArith QArith Qcanon Arith Bool List.
+From QV.Core Require Import OF QcOF Sums Mat Cplx Psd C01_HermPsd.
+From QV.Exec Require Import Base Core_ops C01_ops.
+From QV.Model Require Import QObj HermEmbed C01_Verdicts.
+From QV.Proofs Require Import C01_Verdicts C01_Main C01_Exec C01_Examples.
+Import ListNotations.
+
+(* ================================================================== (a) the positive-semidefiniteness decision *)
 (* the executable decision [herm_psd_dec n H t] decides  H + tI >= 0  for every Hermitian H, every dimension, every ordered field *)
 Theorem C01_herm_psd_dec_spec : forall (F : OF) n (H : cmat F) (t : F), hermitian n H ->
   (herm_psd_dec F n H t = true <-> forall x : cvec F, kle F (c0 F) (cadd F (hqf n H x) (cmul F t (cnorm2 n x)))).
 Proof. exact herm_psd_dec_spec. Qed.
 Print Assumptions C01_herm_psd_dec_spec.
+
+(* matrix_util.is_positive_semidefinite(H, atol) for ANY complex matrix: Hermitian within atol entrywise, and L + atol*I >= 0 for the
+   lower-triangle Hermitian matrix L that eigvalsh reads *)
+Theorem C01_mutil_is_psd_spec : forall (F : OF) n (H : cmat F) (atol : F),
+  mutil_is_psd n H atol = true <->
+  (mutil_is_hermitian n H atol = true /\
+   forall x : cvec F, kle F (c0 F) (cadd F (hqf n (lowerherm H) x) (cmul F atol (cnorm2 n x)))).
+Proof. exact mutil_is_psd_spec. Qed.
+Print Assumptions C01_mutil_is_psd_spec.
+
+(* ================================================================== (b) verdict = mathematical definition at the given tolerance *)
+(* State.is_physical(atol_eq, atol_ineq): |Tr rho - 1| <= atol_eq  and  rho + atol_ineq*I >= 0 ; [None] = the global Settings value *)
+Theorem C01_state_is_physical_iff : forall (F : OF) (st : F) d B (v : rvec F) aeq aineq,
+  basis_hermitian d B -> kle F (c0 F) (resolve_atol st aineq) ->
+  (state_is_physical st (c0 F) d B v aeq aineq = true <->
+   kle F (kabs (csub F (re (state_trace d B v)) (c1 F))) (resolve_atol st aeq) /\
+   forall x : cvec F, kle F (c0 F) (cadd F (hqf d (op_of_vec d B v) x) (cmul F (resolve_atol st aineq) (cnorm2 d x)))).
+Proof. exact state_is_physical_iff. Qed.
+Print Assumptions C01_state_is_physical_iff.
+
+(* the equality sub-verdict alone (is_trace_one / is_eq_constraint_satisfied) *)
+Theorem C01_state_trace_verdict_iff : forall (F : OF) d B (v : rvec F) (atol : F), basis_hermitian d B ->
+  (state_is_trace_one d B v atol (c0 F) = true <-> kle F (kabs (csub F (re (state_trace d B v)) (c1 F))) atol).
+Proof. exact state_trace_verdict_iff. Qed.
+Print Assumptions C01_state_trace_verdict_iff.
+
+(* the inequality sub-verdict alone *)
+Theorem C01_state_is_psd_iff : forall (F : OF) d B (v : rvec F) (atol : F), basis_hermitian d B -> kle F (c0 F) atol ->
+  (state_is_psd d B v atol = true <->
+   forall x : cvec F, kle F (c0 F) (cadd F (hqf d (op_of_vec d B v) x) (cmul F atol (cnorm2 d x)))).
+Proof. exact state_is_psd_iff. Qed.
+Print Assumptions C01_state_is_psd_iff.
+
+(* tolerance 0: exactly the unit-trace positive semidefinite operators *)
+Theorem C01_state_physical_exact_iff : forall (F : OF) (st : F) d B (v : rvec F), basis_hermitian d B ->
+  (state_is_physical st (c0 F) d B v (Some (c0 F)) (Some (c0 F)) = true <->
+   state_trace d B v = c1 (CF F) /\ HPSD d (op_of_vec d B v)).
+Proof. exact state_physical_exact_iff. Qed.
+Print Assumptions C01_state_physical_exact_iff.
+
+(* Povm.is_physical: max_ij |(sum_x Pi_x - I)_ij| <= atol_eq (squared complex modulus) and every element + atol_ineq*I >= 0 *)
+Theorem C01_povm_is_physical_iff : forall (F : OF) (st : F) d B m (vs : nat -> rvec F) aeq aineq,
+  (0 < d)%nat -> basis_hermitian d B -> kle F (c0 F) (resolve_atol st aineq) ->
+  (povm_is_physical st (c0 F) d B m vs aeq aineq = true <->
+   (kle F (c0 F) (resolve_atol st aeq) /\
+    forall i j, (i < d)%nat -> (j < d)%nat ->
+      kle F (znorm2 (zsub (povm_sum d B m vs i j) (cdelta i j))) (cmul F (resolve_atol st aeq) (resolve_atol st aeq))) /\
+   forall k, (k < m)%nat -> forall x : cvec F,
+     kle F (c0 F) (cadd F (hqf d (op_of_vec d B (vs k)) x) (cmul F (resolve_atol st aineq) (cnorm2 d x)))).
+Proof. exact povm_is_physical_iff. Qed.
+Print Assumptions C01_povm_is_physical_iff.
+
+Theorem C01_povm_physical_exact_iff : forall (F : OF) (st : F) d B m (vs : nat -> rvec F), (0 < d)%nat -> basis_hermitian d B ->
+  (povm_is_physical st (c0 F) d B m vs (Some (c0 F)) (Some (c0 F)) = true <->
+   (forall i j, (i < d)%nat -> (j < d)%nat -> povm_sum d B m vs i j = cdelta i j) /\
+   forall k, (k < m)%nat -> HPSD d (op_of_vec d B (vs k))).
+Proof. exact povm_physical_exact_iff. Qed.
+Print Assumptions C01_povm_physical_exact_iff.
+
+(* Gate.is_physical, branch taken on an (orthonormal, Hermitian, identity-first) basis: first row of HS within atol_eq of e_0,
+   Choi matrix + atol_ineq*I >= 0 *)
+Theorem C01_gate_is_physical_row_iff : forall (F : OF) (st : F) d B (HS : rmat F) aeq aineq,
+  basis_hermitian d B -> kle F (c0 F) (resolve_atol st aineq) ->
+  (gate_is_physical st true d B HS aeq aineq = true <->
+   (forall a, (a < d * d)%nat -> kle F (kabs (csub F (HS O a) (rdelta O a))) (resolve_atol st aeq)) /\
+   forall x : cvec F,
+     kle F (c0 F) (cadd F (hqf (d * d) (choi_of_hs d B HS) x) (cmul F (resolve_atol st aineq) (cnorm2 (d * d) x)))).
+Proof. exact gate_is_physical_row_iff. Qed.
+Print Assumptions C01_gate_is_physical_row_iff.
+
+(* ... the basis-generic branch: |Tr G(B_a) - Tr B_a| <= atol_eq for every basis element *)
+Theorem C01_gate_is_physical_trace_iff : forall (F : OF) (st : F) d B (HS : rmat F) aeq aineq,
+  (0 < d)%nat -> basis_hermitian d B -> kle F (c0 F) (resolve_atol st aineq) ->
+  (gate_is_physical st false d B HS aeq aineq = true <->
+   (kle F (c0 F) (resolve_atol st aeq) /\
+    forall a, (a < d * d)%nat ->
+      kle F (znorm2 (zsub (gate_image_trace d B HS a) (mtrace d (B a)))) (cmul F (resolve_atol st aeq) (resolve_atol st aeq))) /\
+   forall x : cvec F,
+     kle F (c0 F) (cadd F (hqf (d * d) (choi_of_hs d B HS) x) (cmul F (resolve_atol st aineq) (cnorm2 (d * d) x)))).
+Proof. exact gate_is_physical_trace_iff. Qed.
+Print Assumptions C01_gate_is_physical_trace_iff.
+
+(* ... hence the trace branch at tolerance sd*atol IS the first-row branch at tolerance atol *)
+Theorem C01_gate_tp_branches_agree : forall (F : OF) d (sd : F) B (HS : rmat F) (atol : F),
+  basis_orthonormal d B -> basis_0th_identity d sd B -> (0 < d)%nat -> kle F (c0 F) sd -> sd <> c0 F ->
+  gate_is_tp_trace d B HS (cmul F sd atol) = gate_is_tp_row d HS atol.
+Proof. exact gate_tp_branches_agree. Qed.
+Print Assumptions C01_gate_tp_branches_agree.
+
+(* tolerance 0, basis-generic branch, ANY basis (no orthonormality, no Hermiticity, no normalisation): true exactly when the map
+   X = sum_a v_a B_a |-> sum_ab HS_ab v_b B_a preserves the trace of every X *)
+Theorem C01_gate_tp_trace_exact_iff : forall (F : OF) d B (HS : rmat F), (0 < d)%nat ->
+  (gate_is_tp_trace d B HS (c0 F) = true <->
+   forall v : rvec F, mtrace d (op_of_vec d B (mv (d * d) HS v)) = mtrace d (op_of_vec d B v)).
+Proof. exact gate_tp_trace_exact_iff. Qed.
+Print Assumptions C01_gate_tp_trace_exact_iff.
+
+(* tolerance 0, standard basis, either branch: trace preserving on all operators and Choi matrix positive semidefinite *)
+Theorem C01_gate_physical_exact_iff : forall (F : OF) (st : F) flag d (sd : F) B (HS : rmat F),
+  basis_orthonormal d B -> basis_hermitian d B -> basis_0th_identity d sd B -> (0 < d)%nat -> sd <> c0 F ->
+  (gate_is_physical st flag d B HS (Some (c0 F)) (Some (c0 F)) = true <->
+   (forall v : rvec F, mtrace d (op_of_vec d B (mv (d * d) HS v)) = mtrace d (op_of_vec d B v)) /\
+   HPSD (d * d) (choi_of_hs d B HS)).
+Proof. exact gate_physical_exact_iff. Qed.
+Print Assumptions C01_gate_physical_exact_iff.
+
+(* MProcess.is_physical: the SUM of the outcome maps trace preserving within atol_eq, every outcome completely positive within atol_ineq *)
+Theorem C01_mprocess_is_physical_iff : forall (F : OF) (st : F) d B m (hss : nat -> rmat F) aeq aineq,
+  basis_hermitian d B -> kle F (c0 F) (resolve_atol st aineq) ->
+  (mprocess_is_physical st true d B m hss aeq aineq = true <->
+   (forall a, (a < d * d)%nat -> kle F (kabs (csub F (mprocess_sum_hs m hss O a) (rdelta O a))) (resolve_atol st aeq)) /\
+   forall k, (k < m)%nat -> forall x : cvec F,
+     kle F (c0 F) (cadd F (hqf (d * d) (choi_of_hs d B (hss k)) x) (cmul F (resolve_atol st aineq) (cnorm2 (d * d) x)))).
+Proof. exact mprocess_is_physical_iff. Qed.
+Print Assumptions C01_mprocess_is_physical_iff.
+
+Theorem C01_mprocess_physical_exact_iff : forall (F : OF) (st : F) d (sd : F) B m (hss : nat -> rmat F),
+  basis_orthonormal d B -> basis_hermitian d B -> basis_0th_identity d sd B -> (0 < d)%nat -> sd <> c0 F ->
+  (mprocess_is_physical st true d B m hss (Some (c0 F)) (Some (c0 F)) = true <->
+   (forall v : rvec F, mtrace d (op_of_vec d B (mv (d * d) (mprocess_sum_hs m hss) v)) = mtrace d (op_of_vec d B v)) /\
+   forall k, (k < m)%nat -> HPSD (d * d) (choi_of_hs d B (hss k))).
+Proof. exact mprocess_physical_exact_iff. Qed.
+Print Assumptions C01_mprocess_physical_exact_iff.
+
+(* ================================================================== (c) loosening a tolerance never turns a true verdict false *)
+(* is_physical of the four types; for explicit tolerances and for the Settings default alike; holds for every rtol, in particular
+   for the code before and after the repairs *)
+Theorem C01_verdicts_monotone : forall (F : OF) (st st' rtol : F) flag d B (v : rvec F) m (vs : nat -> rvec F) (HS : rmat F) (hss : nat -> rmat F)
+    aeq aeq' aineq aineq',
+  kle F (resolve_atol st aeq) (resolve_atol st' aeq') -> kle F (resolve_atol st aineq) (resolve_atol st' aineq') ->
+  (state_is_physical st rtol d B v aeq aineq = true -> state_is_physical st' rtol d B v aeq' aineq' = true) /\
+  (povm_is_physical st rtol d B m vs aeq aineq = true -> povm_is_physical st' rtol d B m vs aeq' aineq' = true) /\
+  (gate_is_physical st flag d B HS aeq aineq = true -> gate_is_physical st' flag d B HS aeq' aineq' = true) /\
+  (mprocess_is_physical st flag d B m hss aeq aineq = true -> mprocess_is_physical st' flag d B m hss aeq' aineq' = true).
+Proof. intros F st st' rtol flag d B v m vs HS hss aeq aeq' aineq aineq' H1 H2.
+  split; [now apply state_is_physical_mono|]. split; [now apply povm_is_physical_mono|].
+  split; [now apply gate_is_physical_mono|now apply mprocess_is_physical_mono]. Qed.
+Print Assumptions C01_verdicts_monotone.
+
+(* every equality / inequality sub-verdict by itself (the PSD verdict for every matrix, Hermitian or not) *)
+Theorem C01_subverdicts_monotone : forall (F : OF) (rtol : F) flag d B (v : rvec F) m (vs : nat -> rvec F) (HS : rmat F) (hss : nat -> rmat F)
+    n (H : cmat F) (atol atol' : F), kle F atol atol' ->
+  (state_is_trace_one d B v atol rtol = true -> state_is_trace_one d B v atol' rtol = true) /\
+  (state_is_psd d B v atol = true -> state_is_psd d B v atol' = true) /\
+  (povm_is_identity_sum d B m vs atol rtol = true -> povm_is_identity_sum d B m vs atol' rtol = true) /\
+  (povm_is_psd d B m vs atol = true -> povm_is_psd d B m vs atol' = true) /\
+  (gate_is_tp flag d B HS atol = true -> gate_is_tp flag d B HS atol' = true) /\
+  (gate_is_cp d B HS atol = true -> gate_is_cp d B HS atol' = true) /\
+  (mprocess_is_sum_tp flag d B m hss atol = true -> mprocess_is_sum_tp flag d B m hss atol' = true) /\
+  (mprocess_is_cp d B m hss atol = true -> mprocess_is_cp d B m hss atol' = true) /\
+  (mutil_is_psd n H atol = true -> mutil_is_psd n H atol' = true).
+Proof. intros F rtol flag d B v m vs HS hss n H atol atol' Ha.
+  split; [now apply state_is_trace_one_mono|]. split; [now apply state_is_psd_mono|].
+  split; [now apply povm_is_identity_sum_mono|]. split; [now apply povm_is_psd_mono|].
+  split; [now apply gate_is_tp_mono|]. split; [now apply gate_is_cp_mono|].
+  split; [now apply mprocess_is_sum_tp_mono|]. split; [now apply mprocess_is_cp_mono|now apply mutil_is_psd_mono]. Qed.
+Print Assumptions C01_subverdicts_monotone.
+
+(* ================================================================== (d) "the absolute tolerance is the only slack" *)
+(* After the repairs this is (b) (the thresholds are exactly atol).  About the code AS IT WAS BEFORE the repairs (numpy's default
+   rtol = 1e-5 in State.is_trace_one and Povm.is_identity_sum) the statement is false: *)
+Theorem C01_state_trace_default_rtol_refuted :
+  exists (d : nat) (sd : Qc) (B : nat -> cmat Qc_OF) (v : rvec Qc_OF) (atol : Qc),
+    basis_orthonormal d B /\ basis_hermitian d B /\ @basis_0th_identity Qc_OF d sd B /\ kle Qc_OF (c0 Qc_OF) atol /\
+    state_is_trace_one d B v atol np_rtol = true /\
+    ~ kle Qc_OF (kabs (csub Qc_OF (re (state_trace d B v)) (c1 Qc_OF))) atol.
+Proof. exact state_trace_verdict_refuted. Qed.
+Print Assumptions C01_state_trace_default_rtol_refuted.
+
+Theorem C01_povm_identity_sum_default_rtol_refuted :
+  exists (d : nat) (sd : Qc) (B : nat -> cmat Qc_OF) (m : nat) (vs : nat -> rvec Qc_OF) (atol : Qc),
+    basis_orthonormal d B /\ basis_hermitian d B /\ @basis_0th_identity Qc_OF d sd B /\ kle Qc_OF (c0 Qc_OF) atol /\
+    povm_is_identity_sum d B m vs atol np_rtol = true /\
+    exists i j, (i < d)%nat /\ (j < d)%nat /\
+      ~ kle Qc_OF (znorm2 (zsub (povm_sum d B m vs i j) (cdelta i j))) (cmul Qc_OF atol atol).
+Proof. exact povm_identity_sum_refuted. Qed.
+Print Assumptions C01_povm_identity_sum_default_rtol_refuted.
+
+(* the same two witnesses (trace / identity-sum defect 5e-6, atol = 1e-13) are rejected by the repaired verdicts and constructors *)
+Theorem C01_witnesses_rejected_after_fix :
+  state_is_trace_one 4 pauli2n w_state w_atol (c0 Qc_OF) = false /\ @state_ctor_raises Qc_OF w_atol (c0 Qc_OF) 4 pauli2n w_state true = true /\
+  povm_is_identity_sum 4 pauli2n 2 w_povm w_atol (c0 Qc_OF) = false /\ @povm_ctor_raises Qc_OF w_atol (c0 Qc_OF) 4 pauli2n 2 w_povm true = true.
+Proof. exact witnesses_rejected_after_fix. Qed.
+Print Assumptions C01_witnesses_rejected_after_fix.
+
+(* ================================================================== (e) constructors *)
+(* Constructing with is_physicality_required=True succeeds exactly for the objects that are physical at the Settings tolerance *)
+Theorem C01_ctor_accepts_iff : forall (F : OF) (st : F) flag d B (v : rvec F) m (vs : nat -> rvec F) (HS : rmat F) (hss : nat -> rmat F),
+  (0 < d)%nat -> basis_hermitian d B -> kle F (c0 F) st ->
+  (state_ctor_raises st (c0 F) d B v true = false <->
+     kle F (kabs (csub F (re (state_trace d B v)) (c1 F))) st /\
+     forall x : cvec F, kle F (c0 F) (cadd F (hqf d (op_of_vec d B v) x) (cmul F st (cnorm2 d x)))) /\
+  (povm_ctor_raises st (c0 F) d B m vs true = false <->
+     (kle F (c0 F) st /\ forall i j, (i < d)%nat -> (j < d)%nat ->
+        kle F (znorm2 (zsub (povm_sum d B m vs i j) (cdelta i j))) (cmul F st st)) /\
+     forall k, (k < m)%nat -> forall x : cvec F, kle F (c0 F) (cadd F (hqf d (op_of_vec d B (vs k)) x) (cmul F st (cnorm2 d x)))) /\
+  (gate_ctor_raises st true d B HS true = false <->
+     (forall a, (a < d * d)%nat -> kle F (kabs (csub F (HS O a) (rdelta O a))) st) /\
+     forall x : cvec F, kle F (c0 F) (cadd F (hqf (d * d) (choi_of_hs d B HS) x) (cmul F st (cnorm2 (d * d) x)))) /\
+  (* MProcess: additionally every CompositeSystem whose basis flag is False is rejected *)
+  (mprocess_ctor_raises st flag d B m hss true = false <->
+     flag = true /\
+     (forall a, (a < d * d)%nat -> kle F (kabs (csub F (mprocess_sum_hs m hss O a) (rdelta O a))) st) /\
+     forall k, (k < m)%nat -> forall x : cvec F,
+       kle F (c0 F) (cadd F (hqf (d * d) (choi_of_hs d B (hss k)) x) (cmul F st (cnorm2 (d * d) x)))).
+Proof. intros F st flag d B v m vs HS hss Hd HB Hs.
+  split; [now apply state_ctor_accepts_iff|]. split; [now apply povm_ctor_accepts_iff|].
+  split; [now apply gate_ctor_accepts_row_iff|now apply mprocess_ctor_accepts_iff]. Qed.
+Print Assumptions C01_ctor_accepts_iff.
+
+(* in general (any rtol, any flag): raise iff required and not physical *)
+Theorem C01_ctor_raises_iff : forall (F : OF) (st rtol : F) flag d B (v : rvec F) m (vs : nat -> rvec F) (HS : rmat F) (hss : nat -> rmat F) required,
+  (state_ctor_raises st rtol d B v required = true <-> (required = true /\ state_is_physical st rtol d B v None None = false)) /\
+  (povm_ctor_raises st rtol d B m vs required = true <-> (required = true /\ povm_is_physical st rtol d B m vs None None = false)) /\
+  (gate_ctor_raises st flag d B HS required = true <-> (required = true /\ gate_is_physical st flag d B HS None None = false)) /\
+  (mprocess_ctor_raises st flag d B m hss required = true <->
+     (flag = false \/ (required = true /\ mprocess_is_physical st flag d B m hss None None = false))).
+Proof. intros. split; [apply state_ctor_raises_iff|]. split; [apply povm_ctor_raises_iff|].
+  split; [apply gate_ctor_raises_iff|apply mprocess_ctor_raises_iff]. Qed.
+Print Assumptions C01_ctor_raises_iff.
+
+(* loosening the Settings tolerance never turns an accepted construction into a raise *)
+Theorem C01_ctor_accept_mono : forall (F : OF) (st st' rtol : F) flag d B (v : rvec F) m (vs : nat -> rvec F) (HS : rmat F) (hss : nat -> rmat F) required,
+  kle F st st' ->
+  (state_ctor_raises st rtol d B v required = false -> state_ctor_raises st' rtol d B v required = false) /\
+  (povm_ctor_raises st rtol d B m vs required = false -> povm_ctor_raises st' rtol d B m vs required = false) /\
+  (gate_ctor_raises st flag d B HS required = false -> gate_ctor_raises st' flag d B HS required = false) /\
+  (mprocess_ctor_raises st flag d B m hss required = false -> mprocess_ctor_raises st' flag d B m hss required = false).
+Proof. intros F st st' rtol flag d B v m vs HS hss required H.
+  split; [now apply state_ctor_accept_mono|]. split; [now apply povm_ctor_accept_mono|].
+  split; [now apply gate_ctor_accept_mono|now apply mprocess_ctor_accept_mono]. Qed.
+Print Assumptions C01_ctor_accept_mono.
+
+(* ================================================================== (f) origin and zero objects *)
+(* for every dimension, every outcome count, every basis with B_0 = I/sd (sd*sd = d), every non-negative tolerance
+   (gate / instrument under the basis-generic TP branch: the basis moreover orthonormal) *)
+Theorem C01_origin_objects_physical : forall (F : OF) (st rtol : F) flag d (sd : F) B m aeq aineq,
+  (flag = false -> basis_orthonormal d B) -> basis_0th_identity d sd B -> cmul F sd sd = knat d -> kle F (c0 F) sd ->
+  (0 < d)%nat -> (0 < m)%nat ->
+  kle F (c0 F) (resolve_atol st aeq) -> kle F (c0 F) (resolve_atol st aineq) -> kle F (c0 F) rtol ->
+  state_is_physical st rtol d B (state_origin sd) aeq aineq = true /\
+  povm_is_physical st rtol d B m (povm_origin sd m) aeq aineq = true /\
+  gate_is_physical st flag d B (@gate_origin F) aeq aineq = true /\
+  mprocess_is_physical st flag d B m (mprocess_origin m) aeq aineq = true.
+Proof. intros F st rtol flag d sd B m aeq aineq Ho H0 Hsd Hs Hd Hm Ha1 Ha2 Hr.
+  split; [now apply state_origin_physical|]. split; [now apply povm_origin_physical|].
+  split; [now apply (gate_origin_physical F st flag d sd)|now apply (mprocess_origin_physical F st flag d sd)]. Qed.
+Print Assumptions C01_origin_objects_physical.
+
+(* the zero objects denote the zero operator (density matrix / POVM elements / Choi matrices and image of every operator), ANY basis *)
+Theorem C01_zero_objects_are_zero : forall (F : OF) d B (v : rvec F) x i j,
+  op_of_vec d B (@state_zero F) i j = c0 (CF F) /\
+  op_of_vec d B (@povm_zero F x) i j = c0 (CF F) /\
+  choi_of_hs d B (@gate_zero F) i j = c0 (CF F) /\ op_of_vec d B (mv (d * d) (@gate_zero F) v) i j = c0 (CF F) /\
+  choi_of_hs d B (@mprocess_zero F x) i j = c0 (CF F).
+Proof. intros F d B v x i j. split; [apply state_zero_is_zero_operator|]. split; [apply povm_zero_is_zero_operator|].
+  split; [apply (gate_zero_is_zero_operator F d B v i j)|]. split; [apply (gate_zero_is_zero_operator F d B v i j)|apply mprocess_zero_is_zero_operator]. Qed.
+Print Assumptions C01_zero_objects_are_zero.
+
+(* ================================================================== tie: the executed ops ARE the model *)
+(* what the harness obtains from the extracted driver for a request is exactly the model's verdicts on the decoded request *)
+Theorem C01_exec_state : forall (dz en inn rq : Z) (st aeq aineq rtol : Qc) (l : list Qc),
+  let d := Z.to_nat dz in let B := dec_basis d l in let v := vec_of_list 0%Qc (dec_data d l) in
+  let a1 := @resolve_atol Qc_OF st (opt en aeq) in let a2 := @resolve_atol Qc_OF st (opt inn aineq) in
+  op_state [dz; en; inn; rq] (st :: aeq :: aineq :: rtol :: l) =
+  Ok [re (state_trace d B v); im (state_trace d B v); qb (state_is_trace_one d B v a1 rtol);
+      qb (state_is_hermitian d B v a2); qb (state_is_psd d B v a2);
+      qb (@state_is_physical Qc_OF st rtol d B v (opt en aeq) (opt inn aineq));
+      qb (@state_ctor_raises Qc_OF st rtol d B v (zb rq))].
+Proof. exact op_state_spec. Qed.
+Print Assumptions C01_exec_state.
+
+Theorem C01_exec_povm : forall (dz mz en inn rq : Z) (st aeq aineq rtol : Qc) (l : list Qc),
+  let d := Z.to_nat dz in let m := Z.to_nat mz in let B := dec_basis d l in let vs := vecs_of_flat (d * d) m (dec_data d l) in
+  let a1 := @resolve_atol Qc_OF st (opt en aeq) in let a2 := @resolve_atol Qc_OF st (opt inn aineq) in
+  op_povm [dz; mz; en; inn; rq] (st :: aeq :: aineq :: rtol :: l) =
+  Ok ([qb (povm_is_identity_sum d B m vs a1 rtol); qb (povm_is_psd d B m vs a2);
+       qb (@povm_is_physical Qc_OF st rtol d B m vs (opt en aeq) (opt inn aineq));
+       qb (@povm_ctor_raises Qc_OF st rtol d B m vs (zb rq))] ++ flat_of_cmat d d (povm_sum d B m vs)).
+Proof. exact op_povm_spec. Qed.
+Print Assumptions C01_exec_povm.
+
+Theorem C01_exec_gate : forall (dz fl en inn rq wc : Z) (st aeq aineq : Qc) (l : list Qc),
+  let d := Z.to_nat dz in let B := dec_basis d l in let HS := rmat_of_flat (d * d) (d * d) (dec_data d l) in
+  let a1 := @resolve_atol Qc_OF st (opt en aeq) in let a2 := @resolve_atol Qc_OF st (opt inn aineq) in
+  op_gate [dz; fl; en; inn; rq; wc] (st :: aeq :: aineq :: l) =
+  Ok ([qb (gate_is_tp_row d HS a1); qb (gate_is_tp_trace d B HS a1); qb (gate_is_tp (zb fl) d B HS a1);
+       qb (mutil_is_hermitian (d * d) (choi_of_hs d B HS) a2); qb (gate_is_cp d B HS a2);
+       qb (@gate_is_physical Qc_OF st (zb fl) d B HS (opt en aeq) (opt inn aineq));
+       qb (@gate_ctor_raises Qc_OF st (zb fl) d B HS (zb rq))]
+      ++ (if zb wc then flat_of_cmat (d * d) (d * d) (choi_of_hs d B HS) else [])).
+Proof. exact op_gate_spec. Qed.
+Print Assumptions C01_exec_gate.
+
+Theorem C01_exec_gate_tp : forall (dz : Z) (a_row a_trace : Qc) (l : list Qc),
+  let d := Z.to_nat dz in let B := dec_basis d l in let HS := rmat_of_flat (d * d) (d * d) (dec_data d l) in
+  op_gate_tp [dz] (a_row :: a_trace :: l) = Ok [qb (gate_is_tp_row d HS a_row); qb (gate_is_tp_trace d B HS a_trace)].
+Proof. exact op_gate_tp_spec. Qed.
+Print Assumptions C01_exec_gate_tp.
+
+Theorem C01_exec_mprocess : forall (dz mz fl en inn rq : Z) (st aeq aineq : Qc) (l : list Qc),
+  let d := Z.to_nat dz in let m := Z.to_nat mz in let B := dec_basis d l in let hss := mats_of_flat (d * d) m (dec_data d l) in
+  (0 < d)%nat ->
+  op_mprocess [dz; mz; fl; en; inn; rq] (st :: aeq :: aineq :: l) =
+  Ok [qb (mprocess_is_sum_tp (zb fl) d B m hss (@resolve_atol Qc_OF st (opt en aeq)));
+      qb (mprocess_is_cp d B m hss (@resolve_atol Qc_OF st (opt inn aineq)));
+      qb (@mprocess_is_physical Qc_OF st (zb fl) d B m hss (opt en aeq) (opt inn aineq));
+      qb (@mprocess_ctor_raises Qc_OF st (zb fl) d B m hss (zb rq))].
+Proof. exact op_mprocess_spec. Qed.
+Print Assumptions C01_exec_mprocess.
+
+(* ================================================================== Examples: the hypotheses are satisfiable, the verdicts are not constant *)
+(* the exactly rational 2-qubit normalised Pauli basis (entries 0, +-1/2, +-i/2) is orthonormal, Hermitian, B_0 = I/2, 2*2 = 4 *)
+Example C01_example_basis :
+  basis_orthonormal 4 pauli2n /\ basis_hermitian 4 pauli2n /\ @basis_0th_identity Qc_OF 4 q2 pauli2n /\
+  cmul Qc_OF q2 q2 = @knat Qc_OF 4 /\ kle Qc_OF (c0 Qc_OF) q2 /\ q2 <> c0 Qc_OF.
+Proof. split; [exact pauli2n_orthonormal|]. split; [exact pauli2n_hermitian|]. split; [exact pauli2n_identity0|exact sd2]. Qed.
+(* a pure state (rank 1: on the boundary) is physical at tolerance 0 and its constructor does not raise under Settings atol 0 *)
+Example C01_example_pure_state : @state_is_physical Qc_OF q0 q0 4 pauli2n ex_pure (Some q0) (Some q0) = true
+                              /\ @state_ctor_raises Qc_OF q0 q0 4 pauli2n ex_pure true = false.
+Proof. exact ex_pure_physical. Qed.
+(* ... hence, by C01_state_physical_exact_iff, it has unit trace and is positive semidefinite *)
+Example C01_example_pure_state_meaning : state_trace 4 pauli2n ex_pure = c1 (CF Qc_OF) /\ HPSD 4 (op_of_vec 4 pauli2n ex_pure).
+Proof. exact (proj1 (C01_state_physical_exact_iff Qc_OF q0 4 pauli2n ex_pure pauli2n_hermitian) (proj1 ex_pure_physical)). Qed.
+(* a unit-trace operator with smallest eigenvalue -1/4: PSD verdict false at atol 1/5, true at atol 1/4; the constructor raises iff required *)
+Example C01_example_nonphysical_state :
+  state_is_trace_one 4 pauli2n ex_neg q0 q0 = true
+  /\ @state_is_physical Qc_OF q0 q0 4 pauli2n ex_neg (Some q0) (Some (qc 1 5)) = false
+  /\ @state_is_physical Qc_OF q0 q0 4 pauli2n ex_neg (Some q0) (Some (qc 1 4)) = true
+  /\ @state_ctor_raises Qc_OF (qc 1 5) q0 4 pauli2n ex_neg true = true
+  /\ @state_ctor_raises Qc_OF (qc 1 5) q0 4 pauli2n ex_neg false = false.
+Proof. exact ex_neg_verdicts. Qed.
+(* a projective two-outcome measurement *)
+Example C01_example_projective_povm : @povm_is_physical Qc_OF q0 q0 4 pauli2n 2 ex_proj (Some q0) (Some q0) = true
+                                   /\ @povm_ctor_raises Qc_OF q0 q0 4 pauli2n 2 ex_proj true = false.
+Proof. exact ex_proj_physical. Qed.
+(* the identity gate (unitary) under both TP branches; transposition: TP but not CP (Choi eigenvalue -1); 2*id: CP but not TP (defect 1, resp. sd*1) *)
+Example C01_example_gates :
+  (@gate_is_physical Qc_OF q0 true 4 pauli2n hs_id (Some q0) (Some q0) = true
+   /\ @gate_is_physical Qc_OF q0 false 4 pauli2n hs_id (Some q0) (Some q0) = true
+   /\ @gate_ctor_raises Qc_OF q0 true 4 pauli2n hs_id true = false) /\
+  (gate_is_tp true 4 pauli2n hs_transpose q0 = true /\ gate_is_tp false 4 pauli2n hs_transpose q0 = true
+   /\ gate_is_cp 4 pauli2n hs_transpose (qc 1 2) = false /\ gate_is_cp 4 pauli2n hs_transpose 1%Qc = true
+   /\ @gate_ctor_raises Qc_OF (qc 1 2) true 4 pauli2n hs_transpose true = true) /\
+  (gate_is_cp 4 pauli2n hs_twice q0 = true
+   /\ gate_is_tp true 4 pauli2n hs_twice (qc 1 2) = false /\ gate_is_tp false 4 pauli2n hs_twice (qc 1 2) = false
+   /\ gate_is_tp true 4 pauli2n hs_twice 1%Qc = true /\ gate_is_tp false 4 pauli2n hs_twice (qc 2 1) = true).
+Proof. split; [exact hs_id_physical|]. split; [exact hs_transpose_verdicts|exact hs_twice_verdicts]. Qed.
+(* a two-outcome instrument (physical; rejected outright on a basis whose flag is False) and one whose sum is off by 1/3 *)
+Example C01_example_instruments :
+  @mprocess_is_physical Qc_OF q0 true 4 pauli2n 2 ex_instr (Some q0) (Some q0) = true
+  /\ @mprocess_ctor_raises Qc_OF q0 true 4 pauli2n 2 ex_instr true = false
+  /\ @mprocess_ctor_raises Qc_OF q0 false 4 pauli2n 2 ex_instr false = true
+  /\ @mprocess_is_physical Qc_OF q0 true 4 pauli2n 2 ex_instr_bad (Some (qc 1 4)) (Some q0) = false
+  /\ @mprocess_is_physical Qc_OF q0 true 4 pauli2n 2 ex_instr_bad (Some (qc 1 3)) (Some q0) = true.
+Proof. exact ex_instr_physical. Qed.
+(* the origin-object theorems apply to the example basis *)
+Example C01_example_origin : forall st : Qc, kle Qc_OF (c0 Qc_OF) st ->
+  @state_is_physical Qc_OF st (c0 Qc_OF) 4 pauli2n (@state_origin Qc_OF q2) None None = true /\
+  @povm_is_physical Qc_OF st (c0 Qc_OF) 4 pauli2n 3 (@povm_origin Qc_OF q2 3) None None = true /\
+  @gate_is_physical Qc_OF st false 4 pauli2n (@gate_origin Qc_OF) None None = true /\
+  @mprocess_is_physical Qc_OF st false 4 pauli2n 3 (@mprocess_origin Qc_OF 3) None None = true.
+Proof. intros st Hst. destruct sd2 as [S1 [S2 S3]].
+  exact (C01_origin_objects_physical Qc_OF st (c0 Qc_OF) false 4 q2 pauli2n 3 None None (fun _ => pauli2n_orthonormal) pauli2n_identity0 S1 S2
+           (le_S _ _ (le_S _ _ (le_S _ _ (le_n 1)))) (le_S _ _ (le_S _ _ (le_n 1))) Hst Hst (k_refl Qc_OF _)). Qed.
